@@ -33,7 +33,14 @@ MANIFEST = dict(
          "--null-data -v, several -e/-f, inputs with invalid UTF-8, bare CR, empty lines, missing final terminator — "
          "through real rg, the library searcher (slice, fragmented reader, passthru) and a reference built with "
          "regex-syntax directly and evaluated per stripped line by the extracted Coq semantics; the literal-search model "
-         "(find_lit) is compared with find_candidate_line in C11.",
+         "(find_lit) is compared with find_candidate_line in C11. Smart case (-S): Model/SmartCase.v mirrors AstAnalysis "
+         "(ast.rs) and Config::is_case_insensitive over literals, classes, ranges, nested/negated classes, unions, set "
+         "operations; smart_case_decision_meets_doc proves it equal to the documented rule (insensitive iff -i, or -S and the "
+         "pattern has a literal and no uppercase literal, where both ends of a class range are literals) for every "
+         "is_uppercase predicate; kind 102 compares the case mode the real RegexMatcherBuilder chose (read off the HIR it "
+         "translates) with the model and with an independent walk of the regex-syntax AST; the end-to-end generator draws "
+         "class ranges with ends of mixed kinds (digit/punctuation/upper/lower/non-ASCII, hex escapes, negated, nested, set "
+         "operations) with lines differing only by case.",
     note="partial: the full-strength theorems need local_looks / local_looks_crlf (exclude Unicode \\b/\\B/-w) and the LF or "
          "CRLF terminator; span_ok is a hypothesis; regex-syntax translation and regex-automata trusted (differentially tested)",
     technique="Coq proof over executable semantics + end-to-end differential oracle (rg, library, reference HIR)",
